@@ -32,9 +32,25 @@ Transaction models (`FakeConnection.tx_model`):
 `ForkClock` is the `os.getpid` stand-in for fork scenarios; `OsShim` wraps the real `os` module so that
 only the module under test sees the stubbed getpid.  `RecordingPool` is a pool-level fake (a drop-in for
 `pony_pool_mockup`) for checks that want to watch connect/release/drop without running the real pool.
-Helper constructors at the bottom build real `Database` objects over the fakes.
+`make_database(kind, rec)` at the bottom builds a real `Database` on the real provider and the REAL pool class of a
+dialect over the fakes; `driver_exc_factory` builds the driver exceptions (reconnectable or not) to inject.
+
+CrossHair use: `with untraced(rec[, clock]): scenario()` runs the concrete bulk of a scenario outside CrossHair's
+opcode tracer and routes the one comparison `fault number == call number` through the tracer (see `untraced`), which
+makes a whole-session path cost milliseconds; the path tree CrossHair explores is the same.
+
+`ProbeLock` wraps a real threading.Lock so that a lock left held shows up as an exception / a counter instead of a
+hang.  Minimal use with faults at two symbolic positions:
+
+    rec = Recorder(); db = make_database('sqlite-file', rec)           # once per process
+    def harness(k1: int, k2: int) -> bool:
+        reset_sqlite_database(db); rec.reset(faults=(k1, k2), exc_factory=driver_exc_factory('sqlite-file'))
+        with untraced(rec):
+            try:
+                with db_session: ...
+            except Exception: pass
+            return ok(not db.provider.transaction_lock.locked() and all(c.close_calls <= 1 for c in rec.connections))
 """
-import importlib, sys, types
 
 COUNTED = ('connect', 'cursor', 'execute', 'executemany', 'commit', 'rollback', 'close', 'acquire')
 
